@@ -44,6 +44,9 @@ def main():
         if a.prop == "C14":
             import predictcheck
             return predictcheck.run(a.prop, a.tier)
+        if a.prop == "C15":
+            import threadscheck
+            return threadscheck.run(a.prop, a.tier)
         print("unknown property %s" % a.prop)
         return 2
     except MachineryError as e:
